@@ -127,12 +127,14 @@ func (p *PolicySet) UnmarshalJSON(b []byte) error {
 	if err := json.Unmarshal(b, &jsonPolicySet); err != nil {
 		return err
 	}
-	*p = PolicySet{
-		policies: make(PolicyMap, len(jsonPolicySet.StaticPolicies)),
-	}
+	policies := make(PolicyMap, len(jsonPolicySet.StaticPolicies))
 	for k, v := range jsonPolicySet.StaticPolicies {
-		p.policies[PolicyID(k)] = newPolicy((*ast.Policy)(v))
+		if v == nil {
+			return fmt.Errorf("policy %q is null", k)
+		}
+		policies[PolicyID(k)] = newPolicy((*ast.Policy)(v))
 	}
+	*p = PolicySet{policies: policies}
 	return nil
 }
 
